@@ -261,6 +261,7 @@ _FRAME2 = re.compile(r"^\s*#(\d+)\s+0x[0-9a-f]+\s+(?:in\s+)?(.*)$")
 
 
 def _short_fn(fn):
+    fn = fn.replace("(anonymous namespace)::", "")
     fn = re.sub(r"\(.*$", "", fn)           # drop args
     fn = re.sub(r"<[^<>]*>", "", fn)        # drop one level of template args
     fn = re.sub(r"<[^<>]*>", "", fn)
@@ -410,7 +411,93 @@ def parse_sanitizer_text(txt):
     return reps
 
 
+# ----------------------------------------------------------------------------------------
+# valgrind memcheck cross-check (uninitialised values are invisible to ASan/UBSan; MSan is not usable with an uninstrumented libstdc++)
+
+_REPO_BASENAMES = None
+
+
+def _repo_basenames():
+    global _REPO_BASENAMES
+    if _REPO_BASENAMES is None:
+        names = set()
+        for sub in ("src/common", "src/server", "src/client", "include/pistache"):
+            d = os.path.join(REPO, sub)
+            if os.path.isdir(d):
+                names |= set(os.listdir(d))
+        _REPO_BASENAMES = names
+    return _REPO_BASENAMES
+
+
+_VG_KIND = [(r"Conditional jump or move depends on uninitialised", "uninitialised-condition"), (r"Use of uninitialised value", "uninitialised-use"),
+            (r"Syscall param .* uninitialised", "uninitialised-syscall-param"), (r"Invalid read", "invalid-read"), (r"Invalid write", "invalid-write"),
+            (r"Invalid free|Mismatched free", "invalid-free"), (r"Source and destination overlap", "overlap"), (r"Argument .* has a fishy", "fishy-size"),
+            (r"Process terminating|Jump to the invalid address|Invalid jump", "bad-jump")]
+
+
+def parse_memcheck_text(txt):
+    """valgrind -q text log -> reports dict(tool='memcheck', kind, func (innermost frame in a source file of the repository), stack, text)."""
+    reps = []
+    blocks = re.split(r"\n==\d+== *\n", "\n" + txt)
+    for b in blocks:
+        lines = [re.sub(r"^==\d+== ?", "", l) for l in b.splitlines() if re.match(r"^==\d+==", l)]
+        if not lines:
+            continue
+        kind = None
+        for pat, k in _VG_KIND:
+            if re.search(pat, lines[0]):
+                kind = k
+                break
+        if not kind:
+            continue
+        frames = []
+        for l in lines[1:]:
+            m = re.match(r"\s+(?:at|by) 0x[0-9A-Fa-f]+: (.*?) \(([^()]*?)(?::(\d+))?\)\s*$", l)
+            if m:
+                frames.append((_short_fn(m.group(1)), m.group(2), int(m.group(3) or 0)))
+            elif frames and not l.startswith("   "):
+                break
+        func = next((fn for fn, f, ln in frames if f in _repo_basenames()), None)
+        reps.append(dict(tool="memcheck", kind=kind, func=func or (frames[0][0] if frames else "?"), file=next((f for fn, f, ln in frames if f in _repo_basenames()), "?"),
+                         pair=[], case=None, in_repo=func is not None, stack=["%s %s:%d" % fr for fr in frames[:14]], text="\n".join(lines[:40])))
+    return reps
+
+
+def run_memcheck(binary, base_args, nshards, work, timeout, tag="vg"):
+    """Run the harness under valgrind memcheck in nshards processes; returns a list of results like run_resumable's (one attempt each),
+    every report carrying the case that was in flight (from the harness's vgerr records, same order as the log)."""
+    def shard(i):
+        outfile = os.path.join(work, "%s.%d.jsonl" % (tag, i)); logf = os.path.join(work, "%s.%d.vglog" % (tag, i))
+        args = ["valgrind", "-q", "--error-limit=no", "--num-callers=30", "--log-file=" + logf, binary] + list(base_args) + ["--shard", str(i), "--nshards", str(nshards), "--skip", "-1", "--out", outfile]
+        r = run_proc(args, timeout=timeout, cwd=work)
+        r["recs"] = read_jsonl(outfile)
+        try:
+            txt = open(logf, errors="replace").read()
+        except OSError:
+            txt = ""
+        reps = parse_memcheck_text(txt)
+        owners = []
+        for x in r["recs"]:
+            if x.get("t") == "vgerr":
+                owners += [x.get("case")] * int(x.get("n", 1))
+        for k, rep in enumerate(reps):
+            rep["case"] = owners[k] if k < len(owners) else None
+        r["reports"] = reps
+        r["shard"] = i
+        if not any(x.get("t") == "sum" for x in r["recs"]):
+            for x in r["recs"]:
+                if x.get("t") == "crash":
+                    r["crash"] = x
+            if not r.get("crash"):
+                r["unresumable"] = True
+        return [r]
+    with ThreadPoolExecutor(min(nshards, NCPU)) as ex:
+        return list(ex.map(shard, range(nshards)))
+
+
 def san_key(rep):
+    if rep["tool"] == "memcheck":
+        return "memcheck:%s:%s" % (rep["kind"], rep["func"])
     if rep["tool"] == "tsan":
         pr = sorted(set(rep.get("pair") or [rep["func"]]))
         return "tsan:%s:%s" % (rep["kind"], "|".join(pr))
